@@ -1158,7 +1158,8 @@ def padleft_fn(
             )
         cnt = 0
     else:
-        cnt = int(cntstr)
+        # MediaWiki limits the padded length to 500 characters
+        cnt = min(int(cntstr), 500)
     if cnt - len(v) > len(pad) and len(pad) > 0:
         pad = pad * ((cnt - len(v)) // len(pad) + 1)
     if len(v) < cnt:
@@ -1183,7 +1184,8 @@ def padright_fn(
                 sortid="parserfns/940",
             )
     else:
-        cnt = int(cntstr)
+        # MediaWiki limits the padded length to 500 characters
+        cnt = min(int(cntstr), 500)
     if cnt - len(v) > len(pad) and len(pad) > 0:
         pad = pad * ((cnt - len(v)) // len(pad) + 1)
     if len(v) < cnt:
@@ -1478,7 +1480,8 @@ def pad_fn(
         )
         cnt = 0
     else:
-        cnt = int(cntstr)
+        # MediaWiki limits the padded length to 500 characters
+        cnt = min(int(cntstr), 500)
     if cnt - len(v) > len(pad):
         pad = pad * ((cnt - len(v)) // len(pad) + 1)
     if len(v) < cnt:
